@@ -9,7 +9,7 @@ func init() {
 		Mutant{Name: "c02-orderby-merge-replaces", Property: "C02", Rule: "C02.merge", Edits: []Edit{{"clause/order_by.go",
 			"\t\tcopiedColumns := make([]OrderByColumn, len(v.Columns))\n\t\tcopy(copiedColumns, v.Columns)\n\t\torderBy.Columns = append(copiedColumns, orderBy.Columns...)", "\t\t_ = v"}}},
 		Mutant{Name: "c02-not-ignores-namedexpr-again", Property: "C02", Rule: "C02.siblings", Edits: []Edit{{"clause/where.go",
-			"\tswitch e := expr.(type) {\n\tcase Expr:\n\t\treturn e.SQL, true\n\tcase NamedExpr:\n\t\treturn e.SQL, true\n\t}", "\tswitch e := expr.(type) {\n\tcase Expr:\n\t\treturn e.SQL, true\n\t}"}}, Note: "reverts fix 88177f4"},
+			"\tcase Expr:\n\t\treturn e.SQL, true\n\tcase NamedExpr:\n\t\treturn e.SQL, true\n\tcase AndConditions:", "\tcase Expr:\n\t\treturn e.SQL, true\n\tcase AndConditions:"}}, Note: "reverts fix 88177f4"},
 		Mutant{Name: "c02-buildexprs-ignores-namedexpr", Property: "C02", Rule: "C02.siblings", Edits: []Edit{{"clause/where.go",
 			"\t\t\tcase NamedExpr:\n\t\t\t\tsql := strings.ToUpper(v.SQL)\n\t\t\t\twrapInParentheses = strings.Contains(sql, AndWithSpace) || strings.Contains(sql, OrWithSpace)\n", ""}}},
 		Mutant{Name: "c02-not-adds-clause-for-empty-condition", Property: "C02", Rule: "C02.empty", Edits: []Edit{{"chainable_api.go",
